@@ -808,8 +808,22 @@ do_start(Ctx& x)
     // bind device instances
     for (size_t ai : x.cur_acqs) {
         AcqRec& a = x.acqs[ai];
-        a.cam = vmock::live_camera(a.cfg.cam);
-        a.store = vmock::live_storage(a.cfg.store);
+        // (by the run number the start consumed, not "the latest live instance of that index": a stream that is
+        // switched off keeps its device open, so two live instances of one device index can exist)
+        a.cam = nullptr;
+        a.store = nullptr;
+        for (vmock::Instance* i : vmock::hub.instances) {
+            if (i->closed)
+                continue;
+            if (i->is_cam && i->idx == a.cfg.cam && i->run == a.cam_run && i->starts)
+                a.cam = i;
+            if (!i->is_cam && i->idx == a.cfg.store && i->run == a.store_run && i->starts)
+                a.store = i;
+        }
+        if (!a.cam)
+            a.cam = vmock::live_camera(a.cfg.cam);
+        if (!a.store)
+            a.store = vmock::live_storage(a.cfg.store);
     }
     if (r != AcquireStatus_Ok) {
         x.c.trace("    -> start failed");
@@ -1774,7 +1788,7 @@ vh_run(const VhTok* tape, size_t n, VhReport* rep)
                 cur[s].vary = (t.a >> 7) ? 1 + ((t.c >> 8) & 1) : 0;
                 break;
             }
-            case K_AVG: cur[s].avg = (t.b % 4 == 0) ? 0 : 2 + (t.b >> 2) % 15; break;
+            case K_AVG: cur[s].avg = (t.b % 4 == 0) ? ((t.b >> 2) & 1) : 2 + (t.b >> 2) % 15; break; // 0 and 1 both mean "no averaging"
             case K_DELAY: {
                 static const float wd[4] = { 0.f, 0.f, 3.f, 25.f };
                 static const float sd[4] = { 0.f, 0.f, 2.f, 30.f };
@@ -1882,6 +1896,14 @@ vh_run(const VhTok* tape, size_t n, VhReport* rep)
                     }
                     if (scen != 6)
                         c2[1].enabled = false;
+                    if (scen != 6 && (h >> 58) % 5 == 0) {
+                        // the only configured stream is stream 1 (index 0 stays off)
+                        c2[1] = c2[0];
+                        c2[1].enabled = true;
+                        c2[0].enabled = false;
+                    }
+                    if (scen == 0 && (h >> 61) % 3 == 0)
+                        c2[0].avg = c2[1].avg = 1; // frame_average_count 1: no averaging
                     cur[0] = c2[0];
                     cur[1] = c2[1];
                 }
